@@ -105,6 +105,13 @@ pub struct MemSource<'a> {
     pub data: &'a [u8],
     pub len: usize,
     pub pos: usize,
+    /// a `read_exact` ran into the end: the real position is now `len` (everything that was
+    /// left has been consumed). Kept as a flag instead of moving `pos`, so that `pos` stays a
+    /// constant for the solver on the paths that continue; cleared by the next seek.
+    pub at_eof: bool,
+    /// the first `sure` bytes are known (by the harness, concretely) to be below `len`: reads
+    /// inside them cannot fail and are not made to depend on the symbolic length
+    pub sure: usize,
     pub n_read: u32,
     pub n_seek: u32,
     pub consumed: usize,
@@ -116,6 +123,8 @@ impl<'a> MemSource<'a> {
             data,
             len: data.len(),
             pos: 0,
+            at_eof: false,
+            sure: 0,
             n_read: 0,
             n_seek: 0,
             consumed: 0,
@@ -127,6 +136,8 @@ impl<'a> MemSource<'a> {
             data,
             len,
             pos: 0,
+            at_eof: false,
+            sure: 0,
             n_read: 0,
             n_seek: 0,
             consumed: 0,
@@ -137,6 +148,9 @@ impl<'a> MemSource<'a> {
 impl Read for MemSource<'_> {
     fn read(&mut self, out: &mut [u8]) -> io::Result<usize> {
         self.n_read += 1;
+        if self.at_eof {
+            return Ok(0);
+        }
         let mut i = 0;
         while i < out.len() && self.pos < self.len {
             out[i] = self.data[self.pos];
@@ -146,12 +160,41 @@ impl Read for MemSource<'_> {
         self.consumed += i;
         Ok(i)
     }
+    /// std's `read_exact` contract for a source whose `read` hands out everything that is
+    /// available: all-or-UnexpectedEof, the available bytes being consumed in the failing
+    /// case. Written out because std's default loops on the count returned by `read`
+    /// (symbolic when the source length is) and retries on `Interrupted`, neither of which
+    /// CBMC can bound (see FaultFile::write_all).
+    fn read_exact(&mut self, out: &mut [u8]) -> io::Result<()> {
+        self.n_read += 1;
+        let avail = if self.at_eof || self.pos >= self.len { 0 } else { self.len - self.pos };
+        let inside_sure = self.pos + out.len() <= self.sure;
+        if !inside_sure && avail < out.len() {
+            self.at_eof = true;
+            self.consumed += avail;
+            // advance exactly as the successful branch does: `pos` is then the same on both paths
+            // and stays a constant after CBMC merges them (the real position, `len`, is what
+            // `at_eof` stands for)
+            self.pos += out.len();
+            return Err(io::Error::from(io::ErrorKind::UnexpectedEof));
+        }
+        let mut i = 0;
+        while i < out.len() {
+            out[i] = self.data[self.pos];
+            self.pos += 1;
+            i += 1;
+        }
+        self.consumed += i;
+        Ok(())
+    }
 }
 
 impl Seek for MemSource<'_> {
     fn seek(&mut self, to: SeekFrom) -> io::Result<u64> {
         self.n_seek += 1;
-        self.pos = seek_to(self.len, self.pos, to)?;
+        let from = if self.at_eof { self.len } else { self.pos };
+        self.at_eof = false;
+        self.pos = seek_to(self.len, from, to)?;
         Ok(self.pos as u64)
     }
 }
